@@ -340,13 +340,26 @@ struct TimerMonitor
 	size_t runs[12] = {};
 	int step = 0;
 	std::atomic<long> tid_slot{-1};
+	std::atomic<int> gate{-1};            // event whose next run blocks inside its callback until released
+	std::atomic<bool> inside_gate{false}, release_gate{false};
 	template<int N> bool cb()
 	{
-		std::lock_guard<std::mutex> g(m);
-		fired.push_back({N, vclock_ns.load() / 1000000, step});
-		const std::string& r(results[N]);
-		const size_t k(runs[N]++);
-		return k < r.size() ? r[k] == '1' : false;
+		bool ret;
+		{
+			std::lock_guard<std::mutex> g(m);
+			fired.push_back({N, vclock_ns.load() / 1000000, step});
+			const std::string& r(results[N]);
+			const size_t k(runs[N]++);
+			ret = k < r.size() ? r[k] == '1' : false;
+		}
+		if (gate.load() == N)
+		{
+			gate = -1;
+			inside_gate = true;
+			for (int i(0); i < 2000000 && !release_gate.load(); ++i) usleep(10);
+			inside_gate = false;
+		}
+		return ret;
 	}
 };
 std::atomic<long long> *sleep_counter_of_self();
@@ -403,6 +416,25 @@ static Reg r_timer("timer", [](std::istringstream& is) {
 			else if (t[0] == 'c')
 			{
 				cleared.unum(timer.clear());
+				quiesce();
+			}
+			else if (t[0] == 'G')
+			{
+				// clear() while a callback is running: event i is gated, the clock is advanced to its due time, clear() is called from a second thread
+				// while the callback is held, then the callback is released
+				int i(0); long long ms(0);
+				sscanf(t.c_str() + 1, "%d,%lld", &i, &ms);
+				mon.release_gate = false;
+				mon.gate = i;
+				vclock_ns = vclock_ns.load() + ms * 1000000LL;
+				for (int w(0); w < 500000 && !mon.inside_gate.load(); ++w) usleep(10);
+				if (!mon.inside_gate.load()) { err = "gated event did not fire"; mon.gate = -1; break; }
+				size_t n(0);
+				std::thread clr([&] { n = timer.clear(); });
+				usleep(30000);
+				mon.release_gate = true;
+				clr.join();
+				cleared.unum(n);
 				quiesce();
 			}
 		}
